@@ -200,11 +200,11 @@ def gen_random(rng, profile):
     def wrong_flag():
         # wrong-typed send through one of the public entry points (send_message / cast / call,
         # on the cell or on an ActorRef::<Wrong>::from(cell))
-        return "w" + rng.choice("0123456789dr")
+        return "w" + rng.choice("0123456789drzy")
 
     def via_flag():
         # correctly typed sends mostly through ActorCell::send_message, sometimes cast / call
-        return rng.choice("123456789dr") if rng.random() < 0.35 else ""
+        return rng.choice("123456789drzy") if rng.random() < 0.35 else ""
 
     def leaf_call(depth):
         r = rng.random()
@@ -468,6 +468,9 @@ CORPUS = [
     # seeded C02-6 family: serialized Cast / Call with dropped receiver / Call with waiting caller
     [("do", S(1, "s")), ("do", S(2, "c")), ("do", S(3, "q", [], [S(4, "c")])), ("do", S(5)), ("run",),
      ("do", S(6, "c")), ("run",)],
+    # seeded C02-10: a call with an already expired (z: zero) or almost expired (y: 1 ns) deadline is still a send
+    [("do", S(1, "z")), ("do", S(2, "y")), ("do", S(3, "wz")), ("do", S(4, "", [], [S(5, "z"), S(6, "wy")])), ("run",),
+     ("do", S(7, "z")), ("run",), ("do", D), ("do", S(8, "z")), ("run",)],
     # coverage audit: DerivedActorRef (d) and typed registry lookup (r) as send entry points, right and wrong type;
     # drain through supervisor.drain_children / drain_and_wait(Some) / drain_and_wait(None)
     [("do", S(1, "d")), ("do", S(2, "wd")), ("do", S(3, "r")), ("do", S(4, "wr")), ("run",), ("do", Dc), ("do", S(5, "d")),
